@@ -370,6 +370,17 @@ LEAK_WITNESS = dict(
     scripts=[dict(name="beta", kind="leaky", env_bytes=list(b"C18V_FOO=from-leaky\n"),
                   exit=0, sleep_ms=0, hang=False)],
     selected=[0, 1, 2, 3], env_maps={}, test_threads=2)
+# a failing script under --no-fail-fast / --max-fail 2: the next script and the tests still must not start
+def nff_witness(max_fail):
+    return dict(
+        names=["alpha", "beta"], tool=False, profile="default", host="x86_64-unknown-linux-gnu", target=None,
+        rules=[dict(host=None, target=None, form="table", filter=["atom", 0], setup=["alpha", "beta"],
+                    profile="default", setup_as_string=False)],
+        scripts=[dict(name="alpha", kind="fail", env_bytes=list(b"C18V_FOO=a\n"), exit=3, sleep_ms=0, hang=False),
+                 dict(name="beta", kind="pass_", env_bytes=list(b"C18V_K=b\n"), exit=0, sleep_ms=0, hang=False)],
+        selected=[0, 1, 2, 3], env_maps={}, test_threads=2, max_fail=max_fail)
+
+
 # F5 (DESIGN section 6): exit 0, one valid line and one reserved key
 F5_WITNESS = dict(
     names=["alpha"], tool=False, profile="default", host="x86_64-unknown-linux-gnu", target=None,
@@ -430,7 +441,7 @@ def gen_run_case(r):
                           profile="default", setup_as_string=False))
     return dict(names=names, tool=False, rules=rules, profile="default",
                 host="x86_64-unknown-linux-gnu", target=None, scripts=scripts,
-                selected=list(range(len(RUN_QUERIES))), env_maps={}, test_threads=r.choice([1, 2, 4, 8]))
+                selected=list(range(len(RUN_QUERIES))), env_maps={}, test_threads=r.choice([1, 2, 4, 8]), max_fail=r.choice([None, None, 0, 2, 1]))
 
 
 def render_run_toml(sc):
@@ -450,7 +461,9 @@ def run_impl_case(sc):
                 scripts=[dict(name=s_["name"], exit=s_["exit"], env_bytes=s_["env_bytes"],
                               sleep_ms=s_["sleep_ms"] or None, hang=s_["hang"],
                               leak=(s_["kind"] == "leaky")) for s_ in sc["scripts"]],
-                binaries=RUN_BINARIES, test_threads=sc["test_threads"])
+                binaries=RUN_BINARIES, test_threads=sc["test_threads"],
+                # a failing setup script stops the run whatever the fail-fast setting (--no-fail-fast, --max-fail n)
+                max_fail=sc.get("max_fail"))
 
 
 def oracle_run(sc, res):
@@ -745,7 +758,7 @@ def run(tier, seed):
     check_env_files(chk, binary, files, "c18e")
 
     # ---- real runs of the real runner over scripted scripts and scripted test binaries ---------
-    runs = [F5_WITNESS, LEAK_WITNESS] + list(cp.get("runs", []))
+    runs = [F5_WITNESS, LEAK_WITNESS, nff_witness(0), nff_witness(2)] + list(cp.get("runs", []))
     while len(runs) < (240 if thorough else 36):
         runs.append(gen_run_case(r))
     check_runs(chk, binary, runs, "c18r")
